@@ -58,6 +58,7 @@ func init() {
 	reg(propCfg{ID: "C02", Level: "exploration", Quick: q(16, 2000), Thorough: th(16, 30000)})
 	reg(propCfg{ID: "C03", Level: "exploration", Quick: q(16, 2500), Thorough: th(16, 60000)})
 	reg(propCfg{ID: "C04", Level: "exploration", Quick: q(16, 4000), Thorough: th(16, 100000)})
+	reg(propCfg{ID: "C13", Level: "exploration", Quick: q(16, 2000), Thorough: th(16, 40000)})
 	reg(propCfg{ID: "C14", Level: "exploration", Quick: q(16, 1500), Thorough: th(16, 30000)})
 	reg(propCfg{ID: "C15", Level: "exploration", Quick: q(16, 2000), Thorough: th(16, 40000)})
 	reg(propCfg{ID: "C18", Level: "exploration", Quick: q(16, 3000), Thorough: th(16, 80000)})
@@ -95,9 +96,9 @@ func build(id string, race bool) (string, error) {
 }
 
 type shardResult struct {
-	k       int
-	part    *h.Part
-	exit    int
+	k        int
+	part     *h.Part
+	exit     int
 	out      string
 	timeout  bool
 	inflight []byte
@@ -151,9 +152,9 @@ func runShard(cfg propCfg, bin, id, tier string, k, n int, seed int64, checks in
 			res.part = &p
 		}
 	}
-	if res.exit != 0 && (res.part == nil || !res.part.Done) && !res.timeout {
-		if b, err := os.ReadFile(inflight); err == nil && len(bytes.TrimSpace(b)) > 0 {
-			res.inflight = b
+	if res.exit != 0 && (res.part == nil || !res.part.Done) {
+		if b, err := os.ReadFile(inflight); err == nil && len(bytes.TrimSpace(bytes.Trim(b, "\x00"))) > 0 {
+			res.inflight = bytes.Trim(b, "\x00")
 		}
 	}
 	os.Remove(inflight)
@@ -258,6 +259,15 @@ func replay(cfg propCfg, file string) int {
 	return 0
 }
 
+// replayHangs re-runs one case alone with a 120 s limit and reports whether it still does not finish.
+func replayHangs(cfg propCfg, bin, path string) bool {
+	cmd := exec.Command(bin, "-test.run", "^Test"+cfg.ID+"$", "-test.count", "1", "-test.timeout", "120s")
+	cmd.Dir = filepath.Join(verifDir(), "props")
+	cmd.Env = append(os.Environ(), "VERIF_MODE=replay", "VERIF_REPLAY="+path, "VERIF_DIR="+verifDir())
+	out, _ := cmd.CombinedOutput()
+	return strings.Contains(string(out), "panic: test timed out")
+}
+
 // knownFindings re-runs every open known finding of the property and prints the
 // KNOWN-FINDING line while it still reproduces.
 func knownFindings(cfg propCfg, bin string) (lines []string, classes map[string]bool) {
@@ -304,6 +314,11 @@ func run(cfg propCfg, tier string, seed int64) int {
 	if tier == "thorough" {
 		tc = cfg.Thorough
 	}
+	if v := os.Getenv("VERIF_SHARD_TIMEOUT"); v != "" {
+		if d, err := time.ParseDuration(v); err == nil {
+			tc.Timeout = d
+		}
+	}
 	if v := os.Getenv("VERIF_CHECKS_OVERRIDE"); v != "" {
 		if n, err := strconv.Atoi(v); err == nil {
 			tc.Checks = n
@@ -348,7 +363,24 @@ func run(cfg propCfg, tier string, seed int64) int {
 	capped := false
 	var notes []string
 	for _, r := range results {
-		if (r.part == nil || !r.part.Done) && cfg.DeathIsViolation && len(r.inflight) > 0 {
+		if (r.part == nil || !r.part.Done) && r.timeout && len(r.inflight) > 0 {
+			// a shard hit its deadline: re-run the in-flight case alone with a generous limit;
+			// only a case that hangs again on its own is reported (class hang), otherwise the run is inconclusive
+			dir := filepath.Join(verifDir(), "replays")
+			os.MkdirAll(dir, 0o755)
+			path := filepath.Join(dir, fmt.Sprintf("%s-hang-shard%d.json", cfg.ID, r.k))
+			rf := h.ReplayFile{Property: cfg.ID, Class: "hang", Msg: "the call did not return within the shard deadline and again not within 120 s when run alone", Case: json.RawMessage(r.inflight)}
+			b, _ := json.MarshalIndent(rf, "", " ")
+			os.WriteFile(path, b, 0o644)
+			if replayHangs(cfg, bin, path) {
+				failures = append(failures, &h.FailureRec{Class: "hang", Msg: rf.Msg, Replay: path})
+			} else {
+				inconclusive = true
+				notes = append(notes, fmt.Sprintf("shard %d timed out; its in-flight case completes when run alone (%s)", r.k, path))
+			}
+			continue
+		}
+		if (r.part == nil || !r.part.Done) && !r.timeout && cfg.DeathIsViolation && len(r.inflight) > 0 {
 			dir := filepath.Join(verifDir(), "replays")
 			os.MkdirAll(dir, 0o755)
 			path := filepath.Join(dir, fmt.Sprintf("%s-died-shard%d.json", cfg.ID, r.k))
